@@ -54,6 +54,15 @@ def main():
             mod = importlib.import_module("vf_lib.props." + pid.lower())
             chk = core.Check(pid, tier)
             mod.run(chk)
+            if tier == "thorough" and not os.environ.get("VF_NO_SELFTEST") and not os.environ.get("PHQ_REPO"):
+                # detectability evidence: the kept seeded changes for this property must be reported, the
+                # behaviour-preserving refactors must stay quiet (scratch copies of /repo/include; /repo untouched)
+                from vf_lib import selftest
+                res = selftest.cases_for(pid)
+                chk.coverage["selftest"] = [{"case": l, "status": st, "detail": d[:160]} for l, _, st, d in res]
+                for l, _, st, d in res:
+                    if st == "UNEXPECTED":
+                        print("SELFTEST-REGRESSION property=%s case=%s %s" % (pid, l, d[:200]))
             return chk.finish()
         except frontend.AnalysisBroken as x:
             print("ANALYSIS-BROKEN property=%s %s" % (pid, x))
